@@ -33,6 +33,8 @@ pub mod algorithm {
 }
 pub mod engine;
 pub mod rate;
+#[cfg(any(feature = "verif-hooks", verif_shuttle))]
+pub mod verif;
 
 // ======================================================================
 // Error - PUBLIC
